@@ -99,6 +99,13 @@ def enumerate_cases(tier: str):
                         yield {"version": version, "registry": registry, "fail_requests": [], "listen_mode": "fresh", "ops": [event, ["rx", first], ["rx", MISSING_KINDS[0]]]}
 
 
+    # every internal type with payload 0 / 1 (from the gateway, from a known node) BEFORE the first rejected message: nothing switches the requests off
+    for version in ("2.0", "2.2", "1.5"):
+        for mtype in [t for t in range(0, 35) if t not in (2, 3, 4)]:
+            for text in ("0", "1"):
+                ops = [["rx", "6;255;0;0;17;2.1\n"], ["rx", f"0;255;3;0;{mtype};{text}\n"], ["rx", f"6;255;3;1;{mtype};{text}\n"], ["rx", "5;1;1;0;0;1\n"], ["rx", "5;1;1;0;0;2\n"], ["rx", "6;9;1;0;0;1\n"],
+                       ["rx", "7;255;3;0;0;50\n"]]
+                yield {"version": version, "registry": {}, "fail_requests": [], "listen_mode": "persistent" if mtype % 2 else "fresh", "ops": ops}
     # the whole id space: every node id gets its request (once), also 0, 254 and 255
     for version in ("2.0", "2.2", "1.5"):
         for start in range(0, 256, 32):
